@@ -398,7 +398,7 @@ func b2n(b bool) int {
 func c20(r *rng, tier string, o *out) {
 	nPairs, nMulti := 96, 150
 	if tier == "thorough" {
-		nPairs, nMulti = 1500, 3000
+		nPairs, nMulti = 4000, 8000
 	}
 	for c := 0; c < nMulti; c++ {
 		n := 1 + r.intn(12)
